@@ -256,7 +256,22 @@ CLAIMED["C10"] = (
     "and path conditions. Domains and user-supplied function maps are declined.",
     _NOTE, "DESIGN.md section 5, C10")
 
-NOT_APPLICABLE["C18"] = (
-    "every clause is an arithmetic identity over blade bit-patterns and metric "
-    "values; no structural necessary condition short of matching the exact "
-    "formulas exists, so static analysis cannot decide it (DESIGN.md section 10)")
+CLAIMED["C18"] = (
+    "abstract interpretation of pymbolic.geometric_algebra (pv/absint.py, "
+    "pv/ga.py): the library's product, involution, inverse and constructor "
+    "code is interpreted on multivectors with symbolic coefficients over "
+    "spaces with a symbolic diagonal metric; blade bit patterns and control "
+    "flow are concrete, every result coefficient is a polynomial normal form, "
+    "and each identity of the property is decided by equality of normal forms "
+    "(no solver, nothing of /repo executed); structural rules on __eq__, "
+    "__bool__, __hash__ and on the is_zero guard of every coefficient store",
+    "Bounded in the dimension (1..3, 1..4 in the thorough tier), exact in the "
+    "coefficients and the metric entries: bilinearity, associativity, e_i*e_i "
+    "= g_i, anticommutation, outer/inner/scalar/left/right contraction of "
+    "homogeneous multivectors = grade parts of the geometric product, reverse "
+    "and grade involution as anti-/automorphisms, squared norm, dual, inverse "
+    "of basis blades, generic vectors and pseudoscalars, powers, index-tuple "
+    "normalisation (239 identities); equality, truth and hash read the "
+    "coefficient table only and no zero coefficient is stored. Not decided: "
+    "higher dimensions, numeric tolerance helpers, numpy conversions.",
+    _NOTE, "DESIGN.md section 5, C18")
